@@ -152,6 +152,28 @@ class PathSym:
         if x[0] == 'ref' and x[1][0] == 'sfp':
             sp = x[1][1]
             return [sp[0]] if sp else ['*']
+        # an aggregate (array / tuple of `&mut self.f` references), or a reference to one, handed to the callee: every part of self it
+        # points into may be written there
+        found = []
+        stack = [a]
+        seen = 0
+        while stack and seen < 200:
+            y = stack.pop()
+            seen += 1
+            if not isinstance(y, tuple) or not y:
+                continue
+            if y[0] == 'ref' and isinstance(y[1], tuple) and y[1] and y[1][0] == 'sfp':
+                sp = y[1][1]
+                found.append(sp[0] if sp else '*')
+                continue
+            if y[0] in ('ref', 'deref') and len(y) > 1:
+                stack.append(y[1])
+            elif y[0] == 'agg' and len(y) > 3:
+                stack.extend(y[3])
+            elif y[0] == 'cast' and len(y) > 2:
+                stack.append(y[2])
+        if found:
+            return found
         if x[0] == 'arg' and x[1] == self.self_local:
             return ['*']
         if x[0] == 'ref' and x[1][0] == 'deref' and x[1][1][0] == 'arg' and x[1][1][1] == self.self_local:
